@@ -40,3 +40,13 @@ check("C14", "exploration", "exhaustive enumeration of generated piece sequences
 for e in ENGINES:
     if e["name"] in ("mcrt", "instrument"):
         e["serves_properties"] = sorted(set(e["serves_properties"] + ["C07", "C14"]))
+
+ENGINES += [
+ {"name": "mcos", "path": "engine/mcos", "serves_properties": ["C08"], "kind_free_text": "controlled file system: every FS call of instrumented code is a scheduling point; mutating calls are crash points (with write prefixes) and optional fault points; crash image = the scratch directory at that instant"},
+]
+check("C08", "fault_enumeration", "exhaustive enumeration of source-reader faults, crash points (every mutating FS call and write prefix) and FS-call-level interleavings of concurrent writers on the real blob.DiskCache",
+      "Three complete enumerations against one oracle evaluated on every state and every crash image: (1) every reader misbehaviour (short/long/flipped byte at each index/error after k bytes/wrong declared size x read chunking) through Put and every order/abort point/bad chunk of Chunker writes; (2) every crash point, including proper prefixes of each write, of every history of the operation alphabet up to the stated depth, with the directory re-opened by blob.Open; (3) every interleaving within the preemption bound of 2-3 writers of the same blob (also with one crash). Oracle: right size => right sha256, acknowledged store stays retrievable, Link only to a stored blob, Resolve == digest of linked bytes and retrievable.",
+      "Go toolchain; instrumenter + mcos/mcrt shims; crash = process death (written data persists); tmpfs scratch directory.", "DESIGN.md 3/C08", "mcos")
+for e in ENGINES:
+    if e["name"] in ("mcrt", "instrument"):
+        e["serves_properties"] = sorted(set(e["serves_properties"] + ["C08"]))
